@@ -181,8 +181,8 @@ template<class W> struct Driver {
     e.emit();
     copy(10 + i, 20 + b);      // snapshot of the witness, for the sketch later restored from this image
   }
-  void deser(int b, int j) {
-    bool strm = g.chance(50); long long consumed; uint64_t seed = (uint64_t)bcfg[b].seed;
+  void deser(int b, int j, int path = -1) {      // path: 0 bytes, 1 stream, -1 drawn
+    bool strm = path < 0 ? g.chance(50) : path == 1; long long consumed; uint64_t seed = (uint64_t)bcfg[b].seed;
     if (strm) {
       std::string in((const char*)blob[b].data(), blob[b].size()); in += std::string(16, '\x5a');
       std::istringstream is(in);
@@ -283,6 +283,37 @@ template<class W> struct Driver {
     }
     for (int i = 0; i < NS; i++) { obs(i); obs(10 + i); }
   }
+  // DIRECTED (present in every run): restore-then-continue at the edge states.  For every edge state - never updated; only
+  // zero-weight updates (still "empty": total weight 0); exactly one item - and both restore paths (bytes, stream): serialize,
+  // restore, continue original and restored in lock-step with the same updates and merges (each with its own witness), and use
+  // the restored sketch as a merge operand.
+  void edge_segment(long seg) {
+    Ev("Begin").i("seg", seg).str("wt", wname()).b("edge", true).emit();
+    sk.clear(); prev.clear(); stream.clear(); restored.clear(); cfg.clear(); ver.clear();
+    for (int b = 0; b < NB; b++) blive[b] = false;
+    twin_a = twin_b = -1; twin_left = 0; profile = 1; U = 30;
+    for (int state = 0; state < 3; state++) for (int path = 0; path < 2; path++) {
+      Cfg A = draw_cfg(6);
+      mkpair(0, A); mkpair(1, A); mkpair(2, A);
+      auto both = [&](int i, long x, ull w, bool raw) { do_update(i, x, w, raw); do_update(10 + i, x, w, false); };
+      if (state == 1) { both(0, g.range(1, U), 0, false); both(0, g.range(1, U), 0, true); }
+      if (state == 2) both(0, g.range(1, U), g.chance(50) ? 1 : (ull)g.range(1, 1000), g.chance(50));
+      obs(0);
+      int b = (int)g.below(NB);
+      ser(0, b); deser(b, 1, path);
+      twin_a = 0; twin_b = 1; twin_obs(); obs(1);
+      for (int k = 0; k < 6; k++) both(2, g.range(1, U), (ull)g.range(1, 20), false);
+      for (int k = 0; k < 24; k++) {
+        if (k == 4 || k == 15) { do_merge(0, 2); do_merge(1, 2); twin_obs(); continue; }
+        if (k == 9) { ser(1, (b + 1) % NB); obs(0); obs(1); continue; }
+        long x = g.range(1, U); ull w = g.chance(5) ? 0 : (ull)g.range(1, 9); bool raw = g.chance(30);
+        both(0, x, w, raw); both(1, x, w, raw); twin_obs();
+      }
+      obs(0); obs(1);
+      twin_a = twin_b = -1;
+      do_merge(2, 1); obs(2); obs(12);          // the restored sketch as a merge operand
+    }
+  }
   void twin_obs() { Ev("TwinObs").i("a", twin_a).i("b", twin_b).b("restored", true).emit(); }
 
   // exceedance statistics: S sketches with different seeds fed the same skewed stream, m offered items queried in each
@@ -345,6 +376,10 @@ int main(int argc, char** argv) {
   long wide = vt::argl(argc, argv, "--wide", 0);      // 1: every segment uses 64-bit weights, numbers logged as limbs (TraceCountMinW.cfg)
   vt::open_out(vt::arg(argc, argv, "--out", "/dev/stdout"));
   vt::Rng g(seed);
+  if (wide == 0 && vt::argl(argc, argv, "--edge", 1)) {      // own generator: the random segments keep their streams
+    vt::Rng ge(seed ^ 0xED6EULL);
+    if (seed % 2 == 0) { Driver<uint64_t> d(ge, serde_pct); d.edge_segment(900); } else { Driver<int64_t> d(ge, serde_pct); d.edge_segment(900); }
+  }
   for (long seg = 0; seg < segments; seg++) {
     if ((seg + seed) % 2 == 0) { Driver<uint64_t> d(g, serde_pct); d.segment(seg, events, maxrows, wide != 0); }
     else { Driver<int64_t> d(g, serde_pct); d.segment(seg, events, maxrows, wide != 0); }
